@@ -233,6 +233,7 @@ VERSION_STRINGS = {
     "7": [7, 0, 0, 0], "7.6": [7, 6, 0, 0], "7.6.3": [7, 6, 3, 0], "7.6.3-4200": [7, 6, 3, 4200],
     "7.6.3-4200-enterprise": [7, 6, 3, 4200], "7.6.3-x-enterprise": [7, 6, 3, 0], "7.6.3-enterprise": [7, 6, 3, 0],
     "6.5.0-0000-community": [6, 5, 0, 0], "5.5.0-1-enterprise": [5, 5, 0, 1], "7.2.0-5325-enterprise": [7, 2, 0, 5325],
+    "6.6.5-10080-enterprise": [6, 6, 5, 10080], "7.10.12-123456-community": [7, 10, 12, 123456],
     "": "err", "x": "err", "x.6.3": "err", "7.x": "err", "7.x.3": "err", "7.6.x": "err", "7.6.x-1": "err", "7.6.-1": "err",
     "7..3": "err", ".6.3": "err", "v7.6.3": "err", "7.6.3.9-10-enterprise": [7, 6, 3, 0],
 }
@@ -364,7 +365,10 @@ def run_c20(prop, tier, seed):
                 nwire += 1
         lines, summ = vlib.drive(vdrive, allsch, work, shards=8)
         bad, nev = vlib.monitor(lines, allsch, {"monitor": "MonAsync"}, work)
-        notrun = [t for t in lines if t.get("skipped")]
+        # (cbMetadata.Load panics on a goroutine of its own when a checkpoint cannot be read: that run's process ends - fail-stop, not a
+        # set-up failure; a Load that neither returns nor dies is what the monitor reports)
+        dies = {s["id"] for s in allsch if s["cfg"].get("wrapper") == "MetaLoad"}
+        notrun = [t for t in lines if t.get("skipped") and not (t["run"] in dies and t["skipped"] == "process is down")]
         if notrun:
             raise vlib.Machinery("wire runs could not be set up: %s" % [(t["l"], t["skipped"]) for t in notrun[:3]])
         results = {}
@@ -398,7 +402,7 @@ def run_c20(prop, tier, seed):
                   "gocbcore invokes a pending operation's callback exactly once, from inside Cancel if the cancel wins (assumed)"],
                  time.time() - t0, len(viols))
         print("property=C20 tier=%s: TLC %d states of AsyncOp.tla (safety + liveness; unbuffered variant refuted); %d runs of %d orders on the "
-              "real AsyncOp + %d calls of the 12 real wrappers against the simulated node; results %s; %d violations" % (tier, r["distinct"], len(allsch) - nwire, len(orders), nwire, results, len(viols)))
+              "real AsyncOp + %d calls of the 12 real wrappers and the metadata backend against the simulated node; results %s; %d violations" % (tier, r["distinct"], len(allsch) - nwire, len(orders), nwire, results, len(viols)))
         for dst, msg, src in viols[:10]:
             print("VIOLATION property=C20 replay=%s   (%s; %s)" % (dst, msg, src))
         return 1 if viols else 0
